@@ -133,6 +133,8 @@ struct Interp<'a> {
     why: Option<&'static str>,
     /// size of the previous answer on the context that will evaluate the input
     ans_bits: (u64, u64),
+    /// a huge exponent on a value of magnitude one was seen (see Pow)
+    may_overrun: bool,
 }
 
 const SAT: u64 = 1 << 40;
@@ -230,6 +232,16 @@ impl<'a> Interp<'a> {
                         Some(k) => {
                             if k >= 2147483648.0 {
                                 (x.0, x.1) // refused: "exponent too large"
+                            } else if x == (1, 1) {
+                                // numerator and denominator of one bit: the base is 0 or +-1 (a product
+                                // of bare base units, say), and so is every power of it whatever the
+                                // exponent. Only the *dimension* exponents get large: the statement lets
+                                // an input with a huge literal exponent take long (rendering a result
+                                // like meter^1073741824 does), but it must still not crash.
+                                if k > 4096.0 {
+                                    self.may_overrun = true;
+                                }
+                                (1, 1)
                             } else {
                                 let k = k.ceil() as u64;
                                 let k = k.max(1);
@@ -259,7 +271,29 @@ impl<'a> Interp<'a> {
                 }
             }
         };
+        let r = if self.why.is_none() && r != (1, 1) && unit_magnitude(self.ctx, e) { (1, 1) } else { r };
         self.check(r)
+    }
+}
+
+/// is the value certainly 0 or +-1 (products, quotients, powers and signs of units of value one)?
+fn unit_magnitude(ctx: &Context, e: &Expr) -> bool {
+    match e {
+        Expr::Const { value } => bits_of(value) == (1, 1),
+        Expr::Unit { name } if name == "ans" || name == "ANS" || name == "_" => false,
+        Expr::Unit { name } => match ctx.lookup(name) {
+            Some(n) => bits_of(&n.value) == (1, 1),
+            None => false,
+        },
+        Expr::Quote { .. } => true,
+        Expr::Mul { exprs } => exprs.iter().all(|x| unit_magnitude(ctx, x)),
+        Expr::UnaryOp(u) => matches!(u.op, UnaryOpType::Negative | UnaryOpType::Positive) && unit_magnitude(ctx, &u.expr),
+        Expr::BinOp(b) => match b.op {
+            BinOpType::Frac => unit_magnitude(ctx, &b.left) && unit_magnitude(ctx, &b.right),
+            BinOpType::Pow => unit_magnitude(ctx, &b.left),
+            _ => false,
+        },
+        _ => false,
     }
 }
 
@@ -282,6 +316,8 @@ pub fn uses_ans(line: &str) -> bool {
 }
 
 pub struct Classified {
+    /// cheap, but with a huge exponent on a value of magnitude one: may take long, must not crash
+    pub may_overrun: bool,
     pub cost: Cost,
     /// parsed to something beyond a bare error (for the non-triviality rule)
     pub parsed_ok: bool,
@@ -290,6 +326,7 @@ pub struct Classified {
 pub fn classify(ctx: &Context, line: &str, ans_bits: (u64, u64)) -> Classified {
     if let Cost::Expensive(w) = text_scan(line) {
         return Classified {
+            may_overrun: false,
             cost: Cost::Expensive(w),
             parsed_ok: false,
         };
@@ -302,12 +339,13 @@ pub fn classify(ctx: &Context, line: &str, ans_bits: (u64, u64)) -> Classified {
         Err(_) => {
             // the parser panicked: that is a finding the worker will reproduce
             return Classified {
+                may_overrun: false,
                 cost: Cost::Cheap,
                 parsed_ok: true,
             };
         }
     };
-    let mut it = Interp { ctx, why: None, ans_bits };
+    let mut it = Interp { ctx, why: None, ans_bits, may_overrun: false };
     let mut parsed_ok = true;
     match &q {
         Query::Expr(e) => {
@@ -351,6 +389,7 @@ pub fn classify(ctx: &Context, line: &str, ans_bits: (u64, u64)) -> Classified {
         Query::Error(_) => parsed_ok = false,
     }
     Classified {
+        may_overrun: it.may_overrun,
         cost: match it.why {
             Some(w) => Cost::Expensive(w),
             None => Cost::Cheap,
